@@ -386,6 +386,8 @@ def finding_signature(pid, c, fail):
     m = c.meta or {}
     if pid == "C06" and "no progress" in fail:
         return "rosenbrock:time_step_below_round_off"
+    if pid == "C10" and m.get("integ") == 0 and m.get("below_round_off"):
+        return "rosenbrock:nonfinite_with_time_step_below_round_off"
     if pid == "C10" and m.get("integ") == 0 and m.get("inf_not_consumed"):
         return "rosenbrock:inf_in_species_not_consumed"
     return (c.kind or "") + ":" + fail.split(":")[0][:60]
@@ -842,6 +844,11 @@ def g_c10(r, tier, env, Ls):
                 if sp not in reactant_ids:
                     meta["inf_not_consumed"] = True
             tags = ["nonfinite_%s" % where]
+            # a request shorter than round_off makes the Rosenbrock loop exit before any work (KF-C06-1): the
+            # non-finite value comes back untouched with status Converged (recorded finding KF-C10-2)
+            if where == "y" and p["integ"] == 0 and r.chance(0.08):
+                p["dt"] = r.logu(1e-18, 2e-16); meta["dt"] = p["dt"]; meta["below_round_off"] = True
+                tags.append("dt_below_round_off")
         elif z == 4:
             p["y"] = [-abs(v) if r.chance(0.5) else v for v in p["y"]]; meta["y"] = p["y"]; tags = ["negative_initial"]
         elif z == 5:
